@@ -320,6 +320,15 @@ def run(chk: Check):
     chunked_records(chk, code, push)
 
     # ------------------------------------------------------------------ TLC judges everything recorded
+    # (a few records with known verdicts ride along: a judge that mis-evaluates them is a machinery failure)
+    for errs, thr, scale, fin, nv, nm, expect in [
+            ([1.005e-8, 0.0], 1e-8, 1.0, True, 1, 2, True), ([1.02e-8], 1e-8, 1.0, True, 1, 2, False),
+            ([0.5000000000000001], 0.5, 2.0, True, 1, 2, True), ([0.5001], 0.5, 2.0, True, 1, 2, False),
+            ([3e-7], 0.0, 4096.0, True, 2, 2, True), ([5e-7], 0.0, 4096.0, True, 2, 2, False),
+            ([0.0], 0.0, 1.0, False, 1, 2, False), ([0.0], 0.0, 1.0, True, 3, 2, False), ([0.0, 0.0], 0.0, 3.0, True, 0, 2, True),
+            ([1e-3, 2.0e-3, 1.5e-3], 1.9e-3, 1e-6, True, 1, 4, False), ([1e-30], 0.0, 1e-19, True, 1, 4, True)]:
+        push({"errs": errs, "thr": thr, "scale": scale, "tolexp": TOL_REPRO, "finite": fin, "nvec": nv, "nmax": nm},
+             routine="selftest", expect=expect)
     verdicts = chol.judge(chk, recs)
     report(chk, recs, info, verdicts)
     lv = ladder.judge(chk, traces, "c17-fd")
@@ -387,7 +396,7 @@ def derivative_records(chk, code, insts, orc, push):
         unit = max(min(max(errs), 1e6 * tscale), 1e-6 * tscale)
         nfd += 1
         traces.append({"id": nfd, "errs": errs, "scale": unit, "floor": max(1e-6, 1e-9 * tscale / unit),
-                       "lo": (3, 1), "first": 1, "bound": min(1.0, 1e-3 * tscale / unit)})
+                       "lo": (3, 1), "first": 1, "bound": 1.0})      # ratio clause only: shrinking by >= 3 per halving
         tinfo[nfd] = {"inst": I["id"], "rank": rank, "n": n, "M": M.tolist(), "S": I["S"], "hs": hs, "errs": errs}
     return traces, tinfo
 
@@ -431,6 +440,10 @@ def report(chk, recs, info, verdicts):
     shape = {"runs": 0, "vectors_as_numpy_loop_shape": 0, "vectors_as_numpyfix_loop_shape": 0}
     for r in recs:
         k, v = info[r["id"]], verdicts[r["id"]]
+        if k["routine"] == "selftest":
+            if v["ok"] != k["expect"]:
+                raise MachineryError(f"judge self-test failed: {r} -> {v}, expected ok = {k['expect']}")
+            continue
         chk.traces += 1
         chk.case((k["routine"], str(k["inst"]), k.get("thr", k.get("cnt", 0))), nontrivial=bool(k.get("nontrivial", True)))
         if k.get("model_ok") is not None:
